@@ -139,8 +139,17 @@ func (c *Compiled) Solve(in, out []*big.Int, opts ...solver.Option) error {
 // solver error, i.e. "the honest prover cannot produce a witness".
 func SolveOpts(cs constraint.ConstraintSystem) []solver.Option {
 	opts := CommitOverrides(cs)
+	// only hints the repository registered with the solver are wrapped: an unregistered
+	// hint must stay "missing" for the solver, as it is for a real prover
+	registered := map[solver.HintID]bool{}
+	for _, h := range solver.GetRegisteredHints() {
+		registered[solver.GetHintID(h)] = true
+	}
 	for _, h := range []solver.Hint{gl.MulAddHint, gl.ReduceHint, gl.InverseHint, gl.SplitLimbsHint} {
 		h := h
+		if !registered[solver.GetHintID(h)] {
+			continue
+		}
 		opts = append(opts, solver.OverrideHint(solver.GetHintID(h), func(m *big.Int, in []*big.Int, out []*big.Int) (err error) {
 			defer func() {
 				if r := recover(); r != nil {
